@@ -753,6 +753,11 @@ func c12CloseSemantics(c *core.Ctx) {
 		for i := range conss {
 			conss[i], _ = b.NewConsumer()
 			r := c.Rng.IntN(n + 1)
+			// (an earlier consumer's commit may already have let the cleaner evict a prefix: a consumer created after
+			// that has fewer values to read)
+			if d, ok := b.Diff(conss[i]); ok && r > d {
+				r = d
+			}
 			for j := 0; j < r; j++ {
 				conss[i].Get(context.Background())
 			}
